@@ -146,8 +146,8 @@ r('rf-resolve-helper',
 
 # ---- refactors written by independent sub-agents (three per property area; they saw the property text and a scratch worktree only).
 # Each was required to be behaviour-preserving, to build in all four feature sets and to leave the suite unchanged; every check runs on each.
-for _area in ('C01', 'C02', 'C03', 'C04', 'C05', 'C06', 'C07', 'C08', 'C10', 'C11', 'C12', 'C14', 'C15', 'C16', 'C17', 'C18', 'C19', 'C20'):
-    for _i in (1, 2, 3, 4, 5, 6, 7, 8, 9, 10, 11, 12, 13, 14, 15, 16, 17, 18):          # r1-r3: first round, r4-r6: second, r7-r9: third (each told what the earlier ones had done)
+for _area in ('ADD', 'C01', 'C02', 'C03', 'C04', 'C05', 'C06', 'C07', 'C08', 'C10', 'C11', 'C12', 'C14', 'C15', 'C16', 'C17', 'C18', 'C19', 'C20'):
+    for _i in (1, 2, 3, 4, 5, 6, 7, 8, 9, 10, 11, 12, 13, 14, 15, 16, 17, 18, 19, 20, 21):          # r1-r3: first round, r4-r6: second, r7-r9: third (each told what the earlier ones had done)
         import os as _os
         if _os.path.exists(_os.path.join(_os.path.dirname(_os.path.dirname(_os.path.abspath(__file__))), 'selftest/refactor_diffs/%s-r%d.diff' % (_area, _i))):
             r('agent-%s-r%d' % (_area, _i), diff='selftest/refactor_diffs/%s-r%d.diff' % (_area, _i))
